@@ -259,16 +259,18 @@ func (eval Evaluator) WithKey(evk EvaluationKeySet) *Evaluator {
 	// Always allocated: CheckAndGetGaloisKey fills it lazily through a value receiver
 	AutomorphismIndex := make(map[uint64][]uint64)
 
-	if galEls := evk.GetGaloisKeysList(); len(galEls) != 0 {
+	if !utils.IsNil(evk) {
+		if galEls := evk.GetGaloisKeysList(); len(galEls) != 0 {
 
-		N := eval.params.N()
-		NthRoot := eval.params.RingQ().NthRoot()
+			N := eval.params.N()
+			NthRoot := eval.params.RingQ().NthRoot()
 
-		var err error
-		for _, galEl := range galEls {
-			if AutomorphismIndex[galEl], err = ring.AutomorphismNTTIndex(N, NthRoot, galEl); err != nil {
-				// Sanity check, this error should not happen.
-				panic(err)
+			var err error
+			for _, galEl := range galEls {
+				if AutomorphismIndex[galEl], err = ring.AutomorphismNTTIndex(N, NthRoot, galEl); err != nil {
+					// Sanity check, this error should not happen.
+					panic(err)
+				}
 			}
 		}
 	}
